@@ -2,7 +2,10 @@ import St4sd.Model.Cache
 /-!
 # C08 — Configuration queries always reflect the latest updates
 
-Model: `Model/Cache.lean` (state = description + cache, `step`, `run`), resolver = C04's `resolve`.
+Model: `Model/Cache.lean` (state = description + cache, `step`, `run`), resolver = C04's `resolve` /
+`resolveF`.  Operations: the 11 mutators, the fully resolved `query`, `queryF` (any combination of the keyword
+arguments), `read` (copying accessors whose answer is not modelled: `instance()`, `replicate()`, `raw()`,
+getters), `touchComp` / `touchVars` (reference getters without a write).
 The invalidation modelled is the repaired one (component name taken literally,
 `fixes/C08-cache-regex-escape.diff`); the unrepaired interpretation of the name as a regular expression
 is refuted in `Witness/C08.lean`.
